@@ -90,6 +90,27 @@ Property World::prop_at(int sec, int slot) {
     ndsize_t n = s.propertyCount(); if (!n) return Property();
     return via_live(8, s.getProperty(((unsigned) slot) % n), &Kept::property);
 }
+
+// A foreign entity (taken from the next block) for the "not in the same block" rejection classes.  Every other time one that shares
+// its name with a local entity is preferred: whether something belongs to a block is a question of identity, not of its name.
+DataArray World::foreign_arr(int b, int slot) {
+    Block L = blk(b), F = blk(b + 1);
+    if (!L || !F) return DataArray();
+    if ((slot & 1) == 0) { for (auto &x : F.dataArrays()) if (L.hasDataArray(x.name()) && !L.hasDataArray(x.id())) { cnt.inc("foreign.namesake"); return x; } }
+    return arr_at(b + 1, slot);
+}
+Source World::foreign_src(int b, int slot) {
+    Block L = blk(b), F = blk(b + 1);
+    if (!L || !F) return Source();
+    if ((slot & 1) == 0) { for (auto &x : F.sources()) if (L.hasSource(x.name()) && !L.hasSource(x.id())) { cnt.inc("foreign.namesake"); return x; } }
+    return source_at(b + 1, slot);
+}
+Tag World::foreign_tag(int b, int slot) {
+    Block L = blk(b), F = blk(b + 1);
+    if (!L || !F) return Tag();
+    if ((slot & 1) == 0) { for (auto &x : F.tags()) if (L.hasTag(x.name()) && !L.hasTag(x.id())) { cnt.inc("foreign.namesake"); return x; } }
+    return tag_at(b + 1, slot);
+}
 std::string World::pick_type(int sel) {
     static const char *t[] = {"t", "nix.test", "type with space", "t", "t", "t"};
     unsigned u = (unsigned) sel % 40;
@@ -99,6 +120,97 @@ std::string World::pick_type(int sel) {
 
 static int section_depth(const Section &s) { int d = 1; Section p = s.parent(); while (p && d < 10) { d++; p = p.parent(); } return d; }
 static int source_depth(const Block &b, const Source &s) { (void) b; int d = 1; Source p = s.parentSource(); while (p && d < 10) { d++; p = p.parentSource(); } return d; }
+
+
+// A linked structure built in one step (every call on its own: a step that is refused - the name exists, the file is ReadOnly - is
+// skipped, existing entities of the same name are reused): a source tree three levels deep with several children per level, a section
+// tree with properties and a link, data arrays with dimension descriptors, a tag and a multi-tag with references, features, positions
+// and extents, a group with members of every kind, a data frame used as a dimension - cross-linked through sources and metadata down
+// to the grandchildren.  Histories that delete, rename, re-link and restart then start from states single random creates seldom reach.
+int World::mk_graph(const Op &op) {
+    Rng r(op.sub);
+    Block b = blk(op.a[0]); if (!b) return 2;
+    std::string P = std::string("g") + std::to_string(r.below(3));
+    int ok = 0, threw = 0;
+    auto on = [&]() { return r.chance(3, 4); };
+#define STEP(stmt) do { try { stmt; ok++; } catch (const std::exception &) { threw++; } } while (0)
+    // sources
+    Source R; if (b.hasSource(P + "_src")) R = b.getSource(P + "_src"); else STEP(R = b.createSource(P + "_src", "t"));
+    std::vector<Source> kids, grand;
+    int nk = 2 + (int) r.below(3);
+    if (R) for (int i = 0; i < nk; i++) {
+        std::string n = "c" + std::to_string(i);
+        Source c; if (R.hasSource(n)) c = R.getSource(n); else STEP(c = R.createSource(n, "t"));
+        if (!c) continue;
+        kids.push_back(c);
+        int ng = (int) r.below(3);
+        for (int j = 0; j < ng; j++) { std::string gn = "gc" + std::to_string(j); Source g; if (c.hasSource(gn)) g = c.getSource(gn); else STEP(g = c.createSource(gn, "t")); if (g) grand.push_back(g); }
+    }
+    // sections
+    Section S; if (f.hasSection(P + "_sec")) S = f.getSection(P + "_sec"); else STEP(S = f.createSection(P + "_sec", "t"));
+    std::vector<Section> subs;
+    if (S) for (int i = 0; i < 3; i++) {
+        std::string n = "s" + std::to_string(i);
+        Section c; if (S.hasSection(n)) c = S.getSection(n); else STEP(c = S.createSection(n, "t"));
+        if (!c) continue;
+        subs.push_back(c);
+        if (!c.hasProperty("p")) STEP(c.createProperty("p", Variant((int64_t) i)));
+        if (i == 0 && on() && !c.hasSection("deep")) STEP(c.createSection("deep", "t").createProperty("q", Variant(std::string("v"))));
+    }
+    if (subs.size() >= 2 && on()) STEP(subs[1].link(subs[0]));
+    if (S && subs.size() >= 3 && on()) STEP(S.link(subs[2]));
+    // arrays
+    auto array = [&](const std::string &n, const NDSize &shape) { DataArray x; if (b.hasDataArray(n)) x = b.getDataArray(n); else STEP(x = b.createDataArray(n, "t", DataType::Double, shape)); return x; };
+    DataArray d = array(P + "_d", NDSize({3, 4})), pos = array(P + "_pos", NDSize({2, 2})), ext = array(P + "_ext", NDSize({2, 2})), ft = array(P + "_ft", NDSize({4}));
+    if (d && d.dimensionCount() == 0) { STEP(d.appendSetDimension({"a", "b", "c"})); STEP(d.appendSampledDimension(0.5, "time", "ms")); }
+    { const double pv[] = {0, 0, 1, 1}; if (pos) STEP(pos.setData(DataType::Double, pv, NDSize({2, 2}), NDSize({0, 0}))); }
+    { const double ev[] = {1, 1, 1, 2}; if (ext) STEP(ext.setData(DataType::Double, ev, NDSize({2, 2}), NDSize({0, 0}))); }
+    DataFrame fr;
+    { std::vector<Column> cols(2); cols[0].name = "x"; cols[0].unit = "mV"; cols[0].dtype = DataType::Double; cols[1].name = "n"; cols[1].unit = ""; cols[1].dtype = DataType::String;
+      if (b.hasDataFrame(P + "_fr")) fr = b.getDataFrame(P + "_fr"); else STEP(fr = b.createDataFrame(P + "_fr", "t", cols)); }
+    if (fr && ft && ft.dimensionCount() == 0 && on()) STEP(ft.appendDataFrameDimension(fr, 0u));
+    // tag
+    Tag T; if (b.hasTag(P + "_tag")) T = b.getTag(P + "_tag"); else STEP(T = b.createTag(P + "_tag", "t", {0.0, 0.0}));
+    if (T) {
+        if (d && on()) STEP(T.addReference(d));
+        if (pos && on()) STEP(T.addReference(pos));
+        if (ft && on() && T.featureCount() < 3) STEP(T.createFeature(ft, LinkType::Tagged));
+        if (kids.size() >= 2 && on()) STEP(T.addSource(kids[1]));
+        if (!grand.empty() && on()) STEP(T.addSource(grand[r.below(grand.size())]));
+        if (!subs.empty() && on()) STEP(T.metadata(subs[0]));
+    }
+    // multi-tag
+    MultiTag M; if (b.hasMultiTag(P + "_mt")) M = b.getMultiTag(P + "_mt"); else if (pos) STEP(M = b.createMultiTag(P + "_mt", "t", pos));
+    if (M) {
+        if (ext && on()) STEP(M.extents(ext));
+        if (d && on()) STEP(M.addReference(d));
+        if (ft && on() && M.featureCount() < 3) STEP(M.createFeature(ft, LinkType::Indexed));
+        if (!kids.empty() && on()) STEP(M.addSource(kids.back()));
+        if (subs.size() >= 2 && on()) STEP(M.metadata(subs[1]));
+    }
+    // group
+    Group G; if (b.hasGroup(P + "_grp")) G = b.getGroup(P + "_grp"); else STEP(G = b.createGroup(P + "_grp", "t"));
+    if (G) {
+        if (d && on()) STEP(G.addDataArray(d));
+        if (ft && on()) STEP(G.addDataArray(ft));
+        if (T && on()) STEP(G.addTag(T));
+        if (M && on()) STEP(G.addMultiTag(M));
+        if (fr && on()) STEP(G.addDataFrame(fr));
+        if (R && on()) STEP(G.addSource(R));
+    }
+    // sources and metadata of the arrays, the frame and the block
+    if (d && kids.size() >= 2 && on()) STEP(d.addSource(kids[1]));
+    if (d && !grand.empty() && on()) STEP(d.addSource(grand.back()));
+    if (ft && kids.size() >= 2 && on()) STEP(ft.addSource(kids[kids.size() - 1]));
+    if (fr && !kids.empty() && on()) STEP(fr.addSource(kids[0]));
+    if (d && S && on()) STEP(d.metadata(S));
+    if (S && on()) STEP(b.metadata(S));
+    if (R && !subs.empty() && on()) STEP(R.metadata(subs.back()));
+#undef STEP
+    cnt.inc("graph.steps_ok", (uint64_t) ok); cnt.inc("graph.steps_refused", (uint64_t) threw);
+    arg_class = ok ? "built" : "refused";
+    return ok ? 0 : (threw ? 1 : 2);
+}
 
 void World::take_victim_handles(const std::string &id) {
     // handles to the victim (and, for trees, to its direct children) taken before the delete
@@ -216,7 +328,7 @@ int World::exec_entity(const Op &op) {
         DataArray pos;
         int variant = ((unsigned) a[3]) % 12;
         if (variant == 0) { pos = DataArray(); arg_class = "none-positions"; }
-        else if (variant == 1 && f.blockCount() > 1) { pos = arr_at(a[0] + 1, a[2]); arg_class = "foreign-positions"; if (pos && b.hasDataArray(pos.id())) arg_class = "own-positions"; }
+        else if (variant == 1 && f.blockCount() > 1) { pos = foreign_arr(a[0], a[2]); arg_class = "foreign-positions"; if (pos && b.hasDataArray(pos.id())) arg_class = "own-positions"; }
         else { pos = arr_at(a[0], a[2]); arg_class = "own-positions"; if (!pos) arg_class = "none-positions"; }
         std::string name = op.s;
         if (b.hasMultiTag(name)) arg_class += ",dup";
@@ -305,7 +417,7 @@ int World::exec_entity(const Op &op) {
     case OP_add_source: {
         int variant = ((unsigned) a[4]) % 10;
         Source s = source_at(a[1], a[3]);
-        if (variant == 1 && f.blockCount() > 1) { s = source_at(a[1] + 1, a[3]); arg_class = "foreign"; }
+        if (variant == 1 && f.blockCount() > 1) { s = foreign_src(a[1], a[3]); arg_class = "foreign"; }
         else if (variant == 2) arg_class = "unknown-id";
         else if (variant == 3) arg_class = "by-id";
         else arg_class = "by-handle";
@@ -330,7 +442,7 @@ int World::exec_entity(const Op &op) {
         Rng r(op.sub);
         for (auto &s : all) if (r.chance(1, 2)) pick.push_back(s);
         arg_class = "own";
-        if (((unsigned) a[4]) % 10 == 1 && f.blockCount() > 1) { Source fs = source_at(a[1] + 1, a[3]); if (fs) { pick.push_back(fs); arg_class = "foreign-member"; } }
+        if (((unsigned) a[4]) % 10 == 1 && f.blockCount() > 1) { Source fs = foreign_src(a[1], a[3]); if (fs) { pick.push_back(fs); arg_class = "foreign-member"; } }
         WITH_SRC_ENT(a[0], a[1], a[2], TRY(e.sources(pick)); )
     }
     // ------------------------------------------------------------------ tags and multi-tags
@@ -365,7 +477,7 @@ int World::exec_entity(const Op &op) {
     case OP_tag_addref: {
         int variant = ((unsigned) a[4]) % 10;
         DataArray x = arr_at(a[0], a[3]);
-        if (variant == 1 && f.blockCount() > 1) { x = arr_at(a[0] + 1, a[3]); arg_class = "foreign"; }
+        if (variant == 1 && f.blockCount() > 1) { x = foreign_arr(a[0], a[3]); arg_class = "foreign"; }
         else if (variant == 2) arg_class = "unknown-id";
         else if (variant == 3) arg_class = "by-id";
         else if (variant == 4) arg_class = "by-name";
@@ -393,13 +505,13 @@ int World::exec_entity(const Op &op) {
         std::vector<DataArray> pick; Rng r(op.sub);
         for (auto &x : b.dataArrays()) if (r.chance(1, 2)) pick.push_back(x);
         arg_class = "own";
-        if (((unsigned) a[4]) % 10 == 1 && f.blockCount() > 1) { DataArray fx = arr_at(a[0] + 1, a[3]); if (fx) { pick.push_back(fx); arg_class = "foreign-member"; } }
+        if (((unsigned) a[4]) % 10 == 1 && f.blockCount() > 1) { DataArray fx = foreign_arr(a[0], a[3]); if (fx) { pick.push_back(fx); arg_class = "foreign-member"; } }
         WITH_TAG(a[1], a[0], a[2], TRY(t.references(pick)); )
     }
     case OP_feat_create: {
         int variant = ((unsigned) a[4]) % 10;
         DataArray x = arr_at(a[0], a[3]);
-        if (variant == 1 && f.blockCount() > 1) { x = arr_at(a[0] + 1, a[3]); arg_class = "foreign"; }
+        if (variant == 1 && f.blockCount() > 1) { x = foreign_arr(a[0], a[3]); arg_class = "foreign"; }
         else if (variant == 2) arg_class = "unknown-id";
         else if (variant == 3) arg_class = "by-id";
         else if (variant == 5) { x = DataArray(); arg_class = "none-handle"; }
@@ -431,7 +543,7 @@ int World::exec_entity(const Op &op) {
     case OP_feat_data: {
         int variant = ((unsigned) a[4]) % 10;
         DataArray x = arr_at(a[0], a[5]);
-        if (variant == 1 && f.blockCount() > 1) { x = arr_at(a[0] + 1, a[5]); arg_class = "foreign"; }
+        if (variant == 1 && f.blockCount() > 1) { x = foreign_arr(a[0], a[5]); arg_class = "foreign"; }
         else if (variant == 2) arg_class = "unknown-id";
         else if (variant == 3) arg_class = "by-id";
         else arg_class = "by-handle";
@@ -448,7 +560,7 @@ int World::exec_entity(const Op &op) {
         MultiTag t = mtag_at(a[0], a[1]); if (!t) return 2;
         int variant = ((unsigned) a[3]) % 10;
         DataArray x = arr_at(a[0], a[2]);
-        if (variant == 1 && f.blockCount() > 1) { x = arr_at(a[0] + 1, a[2]); arg_class = "foreign"; }
+        if (variant == 1 && f.blockCount() > 1) { x = foreign_arr(a[0], a[2]); arg_class = "foreign"; }
         else if (variant == 2) arg_class = "unknown-id";
         else if (variant == 3) arg_class = "by-id";
         else if (variant == 5) { x = DataArray(); arg_class = "none-handle"; }
@@ -463,7 +575,7 @@ int World::exec_entity(const Op &op) {
         int variant = ((unsigned) a[3]) % 10;
         DataArray x = arr_at(a[0], a[2]);
         if (variant == 0) { arg_class = "none"; TRY(t.extents(nix::none)); }
-        if (variant == 1 && f.blockCount() > 1) { x = arr_at(a[0] + 1, a[2]); arg_class = "foreign"; }
+        if (variant == 1 && f.blockCount() > 1) { x = foreign_arr(a[0], a[2]); arg_class = "foreign"; }
         else if (variant == 2) arg_class = "unknown-id";
         else if (variant == 3) arg_class = "by-id";
         else arg_class = "by-handle";
@@ -502,9 +614,9 @@ int World::exec_entity(const Op &op) {
         Rng r(op.sub);
         bool foreign = ((unsigned) a[4]) % 10 == 1 && f.blockCount() > 1;
         arg_class = foreign ? "foreign-member" : "own";
-        if (mk == 0) { std::vector<DataArray> v; for (auto &x : b.dataArrays()) if (r.chance(1, 2)) v.push_back(x); if (foreign) { DataArray y = arr_at(a[0] + 1, a[3]); if (y) v.push_back(y); } TRY(g.dataArrays(v)); }
+        if (mk == 0) { std::vector<DataArray> v; for (auto &x : b.dataArrays()) if (r.chance(1, 2)) v.push_back(x); if (foreign) { DataArray y = foreign_arr(a[0], a[3]); if (y) v.push_back(y); } TRY(g.dataArrays(v)); }
         if (mk == 1) { std::vector<DataFrame> v; for (auto &x : b.dataFrames()) if (r.chance(1, 2)) v.push_back(x); if (foreign) { DataFrame y = frame_at(a[0] + 1, a[3]); if (y) v.push_back(y); } TRY(g.dataFrames(v)); }
-        if (mk == 2) { std::vector<Tag> v; for (auto &x : b.tags()) if (r.chance(1, 2)) v.push_back(x); if (foreign) { Tag y = tag_at(a[0] + 1, a[3]); if (y) v.push_back(y); } TRY(g.tags(v)); }
+        if (mk == 2) { std::vector<Tag> v; for (auto &x : b.tags()) if (r.chance(1, 2)) v.push_back(x); if (foreign) { Tag y = foreign_tag(a[0], a[3]); if (y) v.push_back(y); } TRY(g.tags(v)); }
         { std::vector<MultiTag> v; for (auto &x : b.multiTags()) if (r.chance(1, 2)) v.push_back(x); if (foreign) { MultiTag y = mtag_at(a[0] + 1, a[3]); if (y) v.push_back(y); } TRY(g.multiTags(v)); }
     }
     // ------------------------------------------------------------------ sections
@@ -527,6 +639,7 @@ int World::exec_entity(const Op &op) {
         TRY(s.repository(std::string("http://repo/") + std::to_string(op.sub % 100)));
     }
     case OP_force_id: TRY(f.forceId());
+    case OP_mk_graph: return mk_graph(op);
     default: return 2;
     }
 }
